@@ -1,6 +1,6 @@
 (* C17/Run.v — line driver (two-phase):
    "C <mech> <guid> <fdcap> <flatpak> <wmax> <obs> <chunks> TAB <observation>". *)
-From ZV Require Import Base.Bytes Base.Res C16.Model C16.Wire C17.Model.
+From ZV Require Import Base.Bytes Base.Res C16.Model C16.Wire C16.Spec C16.Run C17.Model C17.Spec.
 
 (* the harness renders the client's own uid as "@" *)
 Definition my_id : bytes := B "@".
@@ -25,14 +25,38 @@ Definition parse_client_case (c : bytes) : option (ccfg * bool * list chunk) :=
   | _ => None
   end.
 
+Definition cverdict_tok (v : cverdict) : bytes :=
+  match v with CVDone _ _ => B "DONE" | CVFail => B "FAIL" | CVNoFd _ => B "FAIL-OR-DONE-WITHOUT-FD" | CVUnclear => B "UNCLEAR" end.
+
+(* in the real-socket mode the harness cannot see the leftover: compare status and fd flag only *)
+Definition short_conforms (v : cverdict) (o : obs) : bool :=
+  match v with
+  | CVDone fd _ => match ob_stat o with StDone => Bool.eqb fd (ob_fd o) | _ => false end
+  | CVNoFd _ => match ob_stat o with StErr => true | StDone => negb (ob_fd o) | StPanic => false end
+  | _ => cconforms v [] o
+  end.
+
 Definition run_case (line : bytes) : outp :=
-  let '(c, obs) := first_tab_split line in
+  let '(c, obstr) := first_tab_split line in
   match parse_client_case c with
   | None => bad_case
   | Some (cfg, real, cs) =>
       let pred := render_outcome real (run_client cfg cs) in
-      {| o_model := if lbeq pred obs then B "OK" else B "MODEL-PREDICTS:" ++ pred;
-         o_spec := dash; o_class := dash |}
+      let '(v, k) := spec_client (cctx_of cfg) (stream_of cs) in
+      let in_contract := chunks_nonempty cs in
+      let sp := if negb in_contract then dash else
+                match parse_observation obstr with
+                | None => B "SPEC:unreadable-observation"
+                | Some o =>
+                    match obs_of_observation o with
+                    | None => B "SPEC:unreadable-observation"
+                    | Some ob =>
+                        if (if real then short_conforms v ob else cconforms v (fds_of cs) ob) then B "OK"
+                        else B "SPEC-EXPECTS:" ++ cverdict_tok v
+                    end
+                end in
+      {| o_model := if lbeq pred obstr then B "OK" else B "MODEL-PREDICTS:" ++ pred;
+         o_spec := sp; o_class := if in_contract then klass_tok k else dash |}
   end.
 
 Definition run (line : bytes) : bytes := render (run_case line).
